@@ -45,6 +45,10 @@
    shaper convention that HarfBuzz's default shaper applies on top of the specification:
       HBZeroMarks: after GPOS, glyphs of GDEF class 3 get advance 0 (and, when the font has no
       GPOS table, their offset is moved back by the removed advance).
+   Where the specification leaves a choice open the reading below is the one every shaper implements:
+   a mark filtering set takes precedence over a mark attachment type (MarkOK); a sequence lookup record
+   that re-enters its own lookup at sequence index 0 is skipped (ApplyRecs); marks attach to the last
+   component of a ligature that was not formed in this run (MarkBase).
    Horizontal layout only: yAdvance of value records is "only used for vertical layout" (GPOS
    chapter, ValueRecord), so the reported yAdvance adjustment is always 0.                         *)
 EXTENDS Integers, Sequences, FiniteSets
